@@ -299,7 +299,12 @@ class FakePyAudio(object):
     self.opened = []
     FakePyAudio.instances.append(self)
 
+  REFUSED_RATE = 12345
+
   def open(self, **kw):
+    if kw.get("rate") == self.REFUSED_RATE:   # a device that refuses the sample rate, as PortAudio does
+      S.point("backend.open")
+      raise IOError(-9997, "Invalid sample rate")
     f = FakeStream(self, kw)
     self.opened.append(f)
     S.point("backend.open")
